@@ -9,6 +9,10 @@
 (*    call f args c    traced callable f applied to argument expressions,  *)
 (*                     c = cache_result_ flag                              *)
 (*      inc(x) = x+1   add(x,y) = x+y   box(x) = Box(val=x, items=(x,x+1)) *)
+(*      kwf(z=x, a=y) = 10x + y: both arguments are passed BY KEYWORD, in   *)
+(*        the non-alphabetical call-site order z, a; the callee sees its    *)
+(*        keywords in call-site order (PEP 468) and the argument            *)
+(*        expressions are evaluated in that order                           *)
 (*      tick()  -> 100 * (number of calls of tick so far, this one incl.)  *)
 (*      boom(x) -> raises ValueError                                        *)
 (*    attr e           e.val            (getattr chain on a lazy result)   *)
@@ -48,6 +52,7 @@ IntExprs(d) ==
   ELSE LET S == IntExprs(d - 1) IN
        S \cup {Call("inc", <<a>>, c) : a \in S, c \in BOOLEAN}
          \cup {Call("add", <<a, b>>, c) : a \in S, b \in S, c \in BOOLEAN}
+         \cup {Call("kwf", <<a, b>>, c) : a \in S, b \in S, c \in BOOLEAN}
          \cup {Call("tick", <<>>, c) : c \in BOOLEAN}
          \cup {Call("boom", <<a>>, FALSE) : a \in S}
          \cup {Attr(Call("box", <<a>>, c)) : a \in S, c \in BOOLEAN}
@@ -69,6 +74,7 @@ HasCached(e) == CASE e.t = "lit"  -> FALSE
 Apply(f, vs, n) ==    \* <<value, ticks after>>
   CASE f = "inc"  -> <<I(vs[1].n + 1), n>>
     [] f = "add"  -> <<I(vs[1].n + vs[2].n), n>>
+    [] f = "kwf"  -> <<I(10 * vs[1].n + vs[2].n), n>>
     [] f = "box"  -> <<Box(vs[1].n), n>>
     [] f = "tick" -> <<I(100 * (n + 1)), n + 1>>
     [] f = "boom" -> <<ERR, n>>
